@@ -41,9 +41,13 @@ type Gen struct {
 	reachCache   map[string]*Frame
 	fieldStoreIdx map[string][]ssa.Value
 	callSiteIdx  map[*ssa.Function][]ssa.CallInstruction
+	containerIdx map[string][]types.Type
+	directContainers map[string][]types.Type
+	freshResCache map[*ssa.Function]bool
 	dynBusy      map[*ssa.Parameter]bool
 	implCache    map[string][]*ssa.Function
 	debug        bool
+	findingObls  map[string]string // obligation name -> when-expression of the recorded finding
 	loadTime     time.Duration
 	contractFiles []string
 }
@@ -52,7 +56,7 @@ func newGen() *Gen {
 	g := &Gen{spkgs: map[string]*ssa.Package{}, typesPkg: map[string]*types.Package{}, pkgAlias: map[string]string{}, ti: newTypeInfo(), arrSort: map[string]string{},
 		contracts: map[string]*Contract{}, macros: map[string]*Macro{}, specFuncs: map[string]SpecSig{}, facts: map[string]bool{}, tracked: map[string]string{},
 		trustedUsed: map[string]bool{}, frames: map[*ssa.Function]*Frame{}, fnIDs: map[*ssa.Function]int{}, globIDs: map[*ssa.Global]int{},
-		closureOf: map[*ssa.MakeClosure]*ssa.Function{}, uncontracted: map[string]bool{}, funcs: map[string]*ssa.Function{}, reachCache: map[string]*Frame{}, dynBusy: map[*ssa.Parameter]bool{}, implCache: map[string][]*ssa.Function{}}
+		closureOf: map[*ssa.MakeClosure]*ssa.Function{}, uncontracted: map[string]bool{}, funcs: map[string]*ssa.Function{}, reachCache: map[string]*Frame{}, findingObls: map[string]string{}, freshResCache: map[*ssa.Function]bool{}, dynBusy: map[*ssa.Parameter]bool{}, implCache: map[string][]*ssa.Function{}}
 	g.initTrusted()
 	return g
 }
@@ -100,6 +104,9 @@ func (g *Gen) load(repo string, patterns []string) error {
 		{"util", "github.com/openkruise/rollouts/pkg/util"}, {"intstr", "k8s.io/apimachinery/pkg/util/intstr"},
 		{"apps", "k8s.io/api/apps/v1"}, {"corev1", "k8s.io/api/core/v1"}, {"metav1", "k8s.io/apimachinery/pkg/apis/meta/v1"},
 		{"control", "github.com/openkruise/rollouts/pkg/controller/batchrelease/control"},
+		{"kruiseappsv1alpha1", "github.com/openkruise/kruise-api/apps/v1alpha1"}, {"kruiseappsv1beta1", "github.com/openkruise/kruise-api/apps/v1beta1"},
+		{"netv1", "k8s.io/api/networking/v1"}, {"gatewayv1beta1", "sigs.k8s.io/gateway-api/apis/v1beta1"},
+		{"batchcontext", "github.com/openkruise/rollouts/pkg/controller/batchrelease/context"},
 	} {
 		g.pkgAlias[kv[0]] = kv[1]
 	}
